@@ -134,7 +134,8 @@ int main(int argc, char** argv) {
     static const u16 kBases[] = {0, 0xFFFF, 0x8000, 0x7FFF};
 
     for (u64 c = 0; c < ctx.cases; ++c) {
-        if (!ctx.selected(c))
+        // a replayed case runs after the earlier cases of its group (they are its history)
+        if (!ctx.selected(c) && !(ctx.only_case >= 0 && c / 8 == (u64)ctx.only_case / 8 && c < (u64)ctx.only_case))
             continue;
         Rng g = ctx.case_rng(c);
         m.clean();
@@ -159,20 +160,46 @@ int main(int argc, char** argv) {
         // ---------------------------------------------------------------- state
         CaseState s = RandomState(g);
         Cfg cfg;
-        cfg.cmd = g.chance(1, 2);
-        cfg.stp16 = g.chance(1, 4);
-        cfg.epi = g.chance(1, 6);
-        cfg.epj = g.chance(1, 6);
-        for (int u = 0; u < 8; ++u) {
-            cfg.m[u] = g.chance(3, 5);
-            cfg.br[u] = g.chance(1, cfg.m[u] ? 8 : 4);
+        // HISTORY: the interpreter instance lives across cases, so anything it remembers between steps (memoised masks,
+        // cached step values ...) is part of what is observed. Cases come in groups of 8 that share one bit-identical
+        // configuration (drawn from the group's own stream) three times out of four, while instruction, step kind and
+        // start addresses change from case to case.
+        auto gen_cfg = [&](Rng& g, u64 c) {
+            Cfg cfg;
+            cfg.cmd = g.chance(1, 2);
+            cfg.stp16 = g.chance(1, 4);
+            cfg.epi = g.chance(1, 6);
+            cfg.epj = g.chance(1, 6);
+            for (int u = 0; u < 8; ++u) {
+                cfg.m[u] = g.chance(3, 5);
+                cfg.br[u] = g.chance(1, cfg.m[u] ? 8 : 4);
+            }
+            cfg.modi = edge_mod(g, c);
+            cfg.modj = g.chance(1, 2) ? edge_mod(g, c / 512 + c * 7) : cfg.modi;
+            cfg.stepi = edge_step7(g);
+            cfg.stepj = edge_step7(g);
+            cfg.stepi0 = g.edge16();
+            cfg.stepj0 = g.edge16();
+            return cfg;
+        };
+        Rng gg = ctx.case_rng(c / 8, 0x6157);
+        const Cfg group = gen_cfg(gg, (c / 8) * 8);
+        cfg = gen_cfg(g, c);
+        {
+            // every field independently: the group's value three times out of four
+            unsigned kept = 0;
+            auto keep = [&] { bool k = g.chance(3, 4); kept += k; return k; };
+            if (keep()) cfg.cmd = group.cmd;
+            if (keep()) cfg.stp16 = group.stp16;
+            if (keep()) cfg.epi = group.epi, cfg.epj = group.epj;
+            if (keep())
+                for (int u = 0; u < 8; ++u)
+                    cfg.m[u] = group.m[u], cfg.br[u] = group.br[u];
+            if (keep()) cfg.modi = group.modi, cfg.stepi = group.stepi;
+            if (keep()) cfg.modj = group.modj, cfg.stepj = group.stepj;
+            if (keep()) cfg.stepi0 = group.stepi0, cfg.stepj0 = group.stepj0;
+            ctx.count("group_configuration_fields_kept", kept);
         }
-        cfg.modi = edge_mod(g, c);
-        cfg.modj = g.chance(1, 2) ? edge_mod(g, c / 512 + c * 7) : cfg.modi;
-        cfg.stepi = edge_step7(g);
-        cfg.stepj = edge_step7(g);
-        cfg.stepi0 = g.edge16();
-        cfg.stepj0 = g.edge16();
         s.v[ix.cmd] = cfg.cmd;
         s.v[ix.stp16] = cfg.stp16;
         s.v[ix.epi] = cfg.epi;
